@@ -45,6 +45,11 @@ func parseWhereClause(l *lexer) (idempotent bool, t token, err error) {
 // | '(' relation ')'
 //
 func parseRelation(l *lexer, t token) (idempotent bool, err error) {
+	if l.depth++; l.depth > maxNestingDepth {
+		return false, errors.New("relation is nested too deeply")
+	}
+	defer func() { l.depth-- }()
+
 	switch t {
 	case tkIdentifier:
 		switch t = l.next(); t {
